@@ -28,3 +28,21 @@ pub open spec fn cd_depth(t: term::Term) -> nat
         _ => 0,
     }
 }
+
+// a finite set of indices below n has at most n members (termination measure of check_definition)
+proof fn lemma_bounded_set_len(s: Set<usize>, n: nat)
+    requires forall|x: usize| s.contains(x) ==> x < n
+    ensures s.len() <= n
+    decreases n
+{
+    if n == 0 {
+        assert(s =~= Set::<usize>::empty());
+    } else {
+        let y = (n - 1) as usize;
+        let s2 = s.remove(y);
+        assert forall|x: usize| s2.contains(x) implies x < n - 1 by { assert(s.contains(x)); }
+        lemma_bounded_set_len(s2, (n - 1) as nat);
+        broadcast use vstd::set::group_set_lemmas;
+        if s.contains(y) { assert(s2.insert(y) =~= s); }
+    }
+}
